@@ -15,6 +15,8 @@ pub mod addr;
 pub mod instructions;
 pub mod registers;
 pub mod structures;
+#[cfg(x86_64_verif)]
+pub mod verif_hooks;
 
 /// Represents a protection ring level.
 #[derive(Debug, Copy, Clone, PartialEq, Eq, Hash)]
